@@ -551,6 +551,10 @@ impl StorageEngine {
             Some(stored_value) => {
                 match &mut stored_value.value {
                     Value::Stream(stream) => {
+                        if stream.is_exhausted() {
+                            return Err(FerrousError::Command(CommandError::Generic(
+                                "The stream has exhausted the last possible ID, unable to add more items".to_string())));
+                        }
                         let id = stream.add_auto(fields);
                         shard_guard.mark_modified(&key);
                         id
